@@ -25,7 +25,7 @@ PROPERTY = 'C08'
 LEVEL = 'fault_enumeration'
 SIGMA = bytes.fromhex('00 01 02 03 04 05 06 09 0A 0C 13 17 18 1E 1F 23 24 30 31 7F 80 81 82 84 A0 BF FF')
 RULE = ('(a) EVERY byte string of length <= L (L=3 quick, 4 thorough) over the 27-octet structural alphabet; (a2) under each of 12 primitive universal tags EVERY content string of length <= 3/4 over a 16-octet content alphabet, and REAL under every first content octet x 17 payloads; '
-        '(a3) boundary magnitudes: declared lengths within -13..+2 (thorough -20..+5) of 2**31, 2**32, 2**63, 2**64 under 12 tag kinds, minimal and padded length form, bare and inside an indefinite SEQUENCE; decimal REALs (NR1/NR2/NR3) with 1..4400 digits and exponents up to 4400 digits; binary REALs with 2..21-octet exponents in every base/scale; 127..5000-octet INTEGER/OID/ENUMERATED/BIT STRING/BOOLEAN/NULL contents; '
+        '(a4) 14 string types x 16 texts (incl. octets invalid in the character set of the type, odd lengths for 2/4-octet sets) x 19 ways of framing a string (primitive; 1-2 fragments; a fragment that is itself constructed, definite or indefinite, up to two levels; empty; wrong fragment type; definite and indefinite outer header), bare and inside SEQUENCEs, decoded without a type, as ANY and under the string type; (a3) boundary magnitudes: declared lengths within -13..+2 (thorough -20..+5) of 2**31, 2**32, 2**63, 2**64 under 12 tag kinds, minimal and padded length form, bare and inside an indefinite SEQUENCE; decimal REALs (NR1/NR2/NR3) with 1..4400 digits and exponents up to 4400 digits; binary REALs with 2..21-octet exponents in every base/scale; 127..5000-octet INTEGER/OID/ENUMERATED/BIT STRING/BOOLEAN/NULL contents; '
         'Sigma = %s; (b) the complete single-mutation neighbourhood (replace each octet by each sigma, delete, '
         'insert sigma, truncate, rewrite first length octet to {00,7F,80,81,84FFFFFFFF,87FF..,88FF..,8901 00..,FE 01..}, empty the content of each constructed element) of every seed encoding '
         '(cover set, all forms, |e| <= 24 quick / 40 thorough); (a3 also as a real file on disk, buffered and unbuffered;) x decoders {BER,CER,DER} x {one-shot on bytes, '
@@ -65,6 +65,13 @@ MAGNITUDE_SPECS = [
     ('bits-size', ('CON', ('SZ', 1, 2), BITS)),
     ('enum', ('ENUM', (('a', 0), ('b', 1)))),
 ]
+
+
+STRING_SPECS = [('none', None), ('any', ANY), ('tag04', OCTS), ('tag0c', U.UTF8), ('tag12', U.STR('NumericString')),
+                ('tag13', U.STR('PrintableString')), ('tag14', U.STR('TeletexString')), ('tag16', U.STR('IA5String')),
+                ('tag17', U.STR('UTCTime')), ('tag18', U.STR('GeneralizedTime')), ('tag19', U.STR('GraphicString')),
+                ('tag1a', U.STR('VisibleString')), ('tag1b', U.STR('GeneralString')), ('tag1c', U.STR('UniversalString')),
+                ('tag1e', U.STR('BMPString')), ('tag07', U.STR('ObjectDescriptor'))]
 
 
 class Timeout(Exception):
@@ -327,6 +334,38 @@ def magnitudes(tier):
         yield tlv(5, b'\x00' * n)
 
 
+STRING_TAGS = bytes.fromhex('04 0c 12 13 14 16 17 18 19 1a 1b 1c 1e 07')
+TEXTS = [b'', b'a', b'ab', b'\xff', b'a\xff', b'\xc3', b'\xc3\xa9', b'\xe2\x82', b'\x00a', b'\x00\x00\x00a', b'\xd8\x00', b'\x00\x11\x00\x00',
+         b'19851106210627.3Z', b'850106210627Z', b'1 2', b'\x80']
+
+
+def string_forms(tier):
+    """every string type x texts that are not valid for every type's character set x every way of sending a string:
+    primitive, one/two fragments, fragment that is itself constructed (definite / indefinite), each under a definite
+    and an indefinite outer header, bare and inside a SEQUENCE"""
+    def tl(tag, body):
+        return bytes([tag, len(body)]) + body
+
+    def ind(tag, body):
+        return bytes([tag, 0x80]) + body + b'\x00\x00'
+    for t in STRING_TAGS:
+        for text in TEXTS:
+            a, b = text[:len(text) // 2], text[len(text) // 2:]
+            frags = [tl(4, text), tl(4, a) + tl(4, b), tl(0x24, tl(4, text)), ind(0x24, tl(4, text)),
+                     tl(4, a) + ind(0x24, tl(4, b)), ind(0x24, ind(0x24, tl(4, text))), tl(0x24, tl(0x24, tl(4, a)) + tl(4, b)),
+                     tl(t, text), b'']
+            forms = [tl(t, text)]
+            for f in frags:
+                if len(f) < 120:
+                    forms.append(tl(t | 0x20, f))
+                forms.append(ind(t | 0x20, f))
+            for e in forms:
+                yield e
+                if len(e) < 120:
+                    yield tl(0x30, e)
+                yield ind(0x30, e + b'\x01\x01\xff')
+
+
 def spec_list(tier, part):
     if tier == 'quick' and part == 'a':
         return SPECS[:5]
@@ -366,6 +405,15 @@ def shard(tier, i, n, seed):
             continue
         guarded(R, lambda: run_all(data, 'magnitude', None, specs_b + specs_m, R, idx), {'data': data, 'origin': 'magnitude'}, {'magnitude'}, idx)
         guarded(R, lambda: run_files(data, specs_b[:3], R, idx), {'data': data, 'origin': 'magnitude', 'as': 'file'}, {'magnitude', 'file'}, idx)
+    # (a4) string types x invalid text x fragment nesting
+    specs_s = [(nm, (B.to_spec(T) if T else None), T) for nm, T in STRING_SPECS]
+    for data in string_forms(tier):
+        idx += 1
+        if (idx + seed) % n != i:
+            continue
+        tagnum = [x for x in data[:4] if x & 0x1f in STRING_TAGS and x & 0xc0 == 0]
+        own = [s for s in specs_s if s[0] in ('none', 'any') or (tagnum and s[0] == 'tag%02x' % (tagnum[-1] & 0x1f))]
+        guarded(R, lambda: run_all(data, 'strings', None, own, R, idx), {'data': data, 'origin': 'strings'}, {'strings'}, idx)
     # (b) mutation neighbourhoods
     for name, form, T, e in seeds(tier):
         own = ('own:' + name, B.to_spec(T), T)
